@@ -589,3 +589,53 @@ def x_get_sliver(w, s, st, info):
     if not w.pending:
         dict_roundtrip(w, sl, s['kind'], path)
     w.stats.inc('probe.get_sliver.%s' % s['kind'])
+
+
+# ================================================================ edits that matter to sliver comparison (C17)
+@op('edit_tracked', 'add')
+def g_edit_tracked(w, rng, st):
+    ts = [t for t in element_targets(st) if t[0] in ('node', 'component', 'interface', 'service')]
+    if not ts:
+        return None
+    # components that carry dedicated ports first (a combined property + sub-interface edit is the interesting case)
+    smart = [t for t in ts if t[0] == 'component' and st.typ(t[2]) == 'SmartNIC']
+    kind, ref, nid = rng.choice(smart) if smart and rng.random() < 0.5 else rng.choice(ts)
+    name = rng.choice(['labels', 'capacities', 'user_data'])
+    return {'kind': kind, 'ref': ref, 'name': name, 'val': gen_value(rng, name, kind)}
+
+
+@op('edit_tracked', 'add')
+def x_edit_tracked(w, s, st, info):
+    e = get_element(w, s['kind'], s['ref'])
+    e.set_property(s['name'], build_value(s['val']))
+
+
+@op('respell_user_data', 'add')
+def g_respell_user_data(w, rng, st):
+    ts = [t for t in element_targets(st) if 'UserData' in st.n[t[2]] and t[0] != 'link']
+    if not ts:
+        return None
+    kind, ref, nid = rng.choice(ts)
+    return {'kind': kind, 'ref': ref, 'style': rng.choice(['compact', 'reversed', 'spaced'])}
+
+
+@op('respell_user_data', 'add')
+def x_respell_user_data(w, s, st, info):
+    """store the same user data value under another JSON spelling (key order / whitespace)"""
+    from fim.slivers.json_data import UserData
+    e = get_element(w, s['kind'], s['ref'])
+    cur = e.get_property('user_data')
+    if cur is None:
+        raise SkipStep()
+    data = cur.data
+    if isinstance(data, dict) and s['style'] == 'reversed':
+        text = json.dumps({k: data[k] for k in reversed(list(data))})
+    elif s['style'] == 'compact':
+        text = json.dumps(data, separators=(',', ':'))
+    else:
+        text = json.dumps(data, indent=1)
+    e.set_property('user_data', UserData(text))
+    got = e.get_property('user_data')
+    if got is None or canon(got.data) != canon(data):
+        w.flag('C02', 'prop_set_get', {'kind': s['kind'], 'name': 'user_data', 'via': 'respelled'},
+               'user data %s stored as %r reads back %r' % (canon(data), text, got))
